@@ -229,7 +229,140 @@ def check_C01(ctx):
     return finish_with_proofs(ctx)
 
 
-CHECKS = {'C01': check_C01, 'C03': check_C03, 'C06': check_C06}
+# ------------------------------------------------------------------ C05 -----
+def valid_encodings(ctx, S, extra_mut=True):
+    """complete valid encodings: what the implementation wrote, plus
+    non-canonical ones (wider classes, grown entry frames) that the model
+    decoder accepts and consumes entirely"""
+    pool = S.pool
+    base = [(r['tid'], r['h']['bytes']) for r in S.run_enc() if r['h'] and r['h']['st'] == '0' and not is_k1(pool, r['tid'])]
+    out = list(base)
+    if extra_mut:
+        cand = []
+        for tid, hx in base[:: (3 if ctx.quick else 1)]:
+            for kind, m in mutations(hx, ctx.rng, 30):
+                if kind in ('widen8', 'widen16', 'widen32', 'widen64', 'swiden', 'inc', 'ins'):
+                    cand.append((tid, m))
+        mo = run_driver(pool, ['dec T%d %s' % c for c in cand])
+        for (tid, m), o in zip(cand, mo):
+            f = sx.fields(o)
+            if f.get('st') == '0' and f.get('consumed') == str(hexlen(m)):
+                out.append((tid, m))
+    return out
+
+
+def check_C05(ctx):
+    proofs_or_violation(ctx, ['Properties_C05.v'])
+    S = CodecStreams(ctx)
+    pool = S.pool
+    encs = valid_encodings(ctx, S)
+    ctx.rng.shuffle(encs)
+    encs = encs[: (700 if ctx.quick else 12000)]
+    items, lib = [], []
+    rkinds = ['buf', 'ped', 'stream', 'fd', 'bbuf', 'bped', 'bstream', 'bfd']
+    for tid, hx in encs:
+        n = hexlen(hx)
+        cuts = range(n) if n <= 40 else sorted(set(list(range(10)) + [ctx.rng.randrange(n) for _ in range(20)] + [n - 1, n - 2]))
+        for k in cuts:
+            pre = hx[:2 * k] or '-'
+            items.append((tid, pre, '-', (hx, k), None))
+            if 'handle' not in pool.caps[tid] and (k % 3 == 0 or k >= n - 2):
+                for rk in rkinds:
+                    lib.append((tid, rk, hx, k, 'decr T%d %s %d %s' % (tid, rk, max(k, 1) if rk.startswith('b') and rk != 'buf' else 0, pre)))
+    rows = S.run_dec(items)
+    broken = []
+    for d in rows:
+        ctx.count('cut:instrumented', d['case'], nontrivial=d['h'] is not None)
+        if d['h'] is None:
+            ctx.violate('harness-crash:dec', 'reader crashed on a truncated input: %s -> %s' % (d['case'][:160], d['hraw'][:300]), {'case': d['case'], 'output': d['hraw']})
+        elif d['h'].get('st') == '0':
+            ctx.violate('truncation-accepted', 'a strict prefix (%d of %d bytes) of a valid encoding was accepted: %s' % (d['tag'][1], hexlen(d['tag'][0]), d['case'][:200]),
+                        {'type': type_desc(pool, d['tid']), 'full': d['tag'][0], 'cut': d['tag'][1], 'case': d['case'], 'output': d['hraw']})
+        elif not same(d['h'], d['m'], ('st',)):
+            broken.append(d)
+    lo = run_harness(pool, [x[4] for x in lib])
+    for (tid, rk, hx, k, line), o in zip(lib, lo):
+        if o == 'unsupported':
+            continue
+        ctx.count('cut:' + rk, line)
+        if o.startswith(('CRASH', 'HARNESS')):
+            ctx.violate('crash:' + rk, 'reader %s crashed on a truncated input: %s -> %s' % (rk, line[:160], o[:300]), {'case': line, 'output': o})
+        elif sx.fields(o).get('st') == '0':
+            ctx.violate('truncation-accepted:' + rk, 'reader %s accepted a strict prefix (%d of %d bytes): %s' % (rk, k, hexlen(hx), line[:200]),
+                        {'type': type_desc(pool, tid), 'full': hx, 'cut': k, 'case': line, 'output': o})
+    report_broken(ctx, broken, 'dec-truncated', 'Deserializer::Read status = model dec status on truncated input')
+    return finish_with_proofs(ctx)
+
+
+# ------------------------------------------------------------------ C04 -----
+def check_C04(ctx):
+    proofs_or_violation(ctx, ['Properties_C04.v'])
+    S = CodecStreams(ctx)
+    pool = S.pool
+    encs = [(r['tid'], r['h']['bytes']) for r in S.run_enc() if r['h'] and r['h']['st'] == '0']
+    items = []
+    per = 40 if ctx.quick else 300
+    seen = set()
+    for tid, hx in encs:
+        for kind, m in mutations(hx, ctx.rng, per):
+            if (tid, m) not in seen:
+                seen.add((tid, m))
+                items.append((tid, m, '-', kind, None))
+        items.append((tid, hx, '-', 'valid', None))
+    # all 256 first bytes for one value of every type; random bytes
+    first = {}
+    for tid, hx in encs:
+        first.setdefault(tid, hx)
+    for tid, hx in first.items():
+        body = '' if hx == '-' else hx[2:]
+        for b in range(256):
+            items.append((tid, '%02x' % b + body, '-', 'prefix-sweep', None))
+        for _ in range(20 if ctx.quick else 400):
+            n = ctx.rng.randint(0, 24)
+            items.append((tid, ''.join('%02x' % ctx.rng.randrange(256) for _ in range(n)) or '-', '-', 'random', None))
+    rows = S.run_dec(items)
+    broken = []
+    for d in rows:
+        ctx.count('dec:' + d['tag'], d['case'], nontrivial=d['h'] is not None)
+        if d['h'] is None:
+            ctx.violate('harness-crash:dec', 'reader crashed: %s -> %s' % (d['case'][:160], d['hraw'][:300]), {'case': d['case'], 'output': d['hraw']})
+            continue
+        if d['m'] is None:
+            continue
+        h, m = d['h'], d['m']
+        agree = h.get('st') == m.get('st') and (h.get('st') != '0' or (val_eq(h.get('val'), m.get('val')) and h.get('consumed') == m.get('consumed')))
+        if agree:
+            continue
+        # the model decoder is the documented language (Properties_C04); decide what kind of disagreement this is
+        if (h.get('st') == '0') != (m.get('st') == '0'):
+            sig = 'k2:variant-index-class' if False else 'accept-reject'
+            ctx.violate(sig, 'decoder %s an input the documented format %s: %s' % ('accepts' if h.get('st') == '0' else 'rejects', 'rejects' if h.get('st') == '0' else 'accepts', d['case'][:200]),
+                        {'type': type_desc(pool, d['tid']), 'case': d['case'], 'implementation': d['hraw'], 'model': d['mraw'], 'mutation': d['tag']})
+        elif h.get('st') == '0':
+            ctx.violate('wrong-value', 'decoded value or consumed length differs from the documented format: %s' % d['case'][:200],
+                        {'type': type_desc(pool, d['tid']), 'case': d['case'], 'implementation': d['hraw'], 'model': d['mraw']})
+        else:
+            # both reject with different codes: constrained only for single-defect inputs
+            if d['tag'] in ('trunc', 'prefix-sweep'):
+                ctx.violate('error-category', 'single-defect input (%s) rejected with status %s, documented category is %s: %s' % (d['tag'], h.get('st'), m.get('st'), d['case'][:200]),
+                            {'type': type_desc(pool, d['tid']), 'case': d['case'], 'implementation': d['hraw'], 'model': d['mraw'], 'mutation': d['tag']})
+            else:
+                broken.append(d)
+    # finding K2: the document gives the variant index as INT64; probe the I64 class
+    probes = []
+    for tid, t in enumerate(pool.types):
+        if t[0] == 'var' and t[1] and t[1][0] == ('s', 0, 'i32'):
+            probes.append((tid, 'b887' + '00' * 8 + '05', '-', 'k2', None))
+    for d in S.run_dec(probes):
+        ctx.count('dec:k2-probe', d['case'])
+        if d['h'] and d['h'].get('st') != '0':
+            ctx.violate('k2:variant-index-int64', 'variant index in the I64 class (admitted by docs/format.md) is rejected: ' + d['case'],
+                        {'case': d['case'], 'implementation': d['hraw']})
+    report_broken(ctx, broken, 'dec-status', 'Deserializer::Read error code = model dec error code on multiply-mutated inputs')
+    return finish_with_proofs(ctx)
+
+
+CHECKS = {'C01': check_C01, 'C03': check_C03, 'C04': check_C04, 'C05': check_C05, 'C06': check_C06}
 
 
 def run(pid, tier, seed, replay=None):
